@@ -13,9 +13,9 @@ Variable dur : node -> xtime.
 Variable tmin : Q.
 Variables i0 r0 : list node.
 
-Hypothesis Hdelay : forall u v d, delay u v = Some d -> 0 <= d.
-Hypothesis Hdur : forall u d, dur u = Some d -> 0 <= d.
-Hypothesis Hadj : forall u, NoDup (gadj g u).
+Hypothesis Hdelay : forall u v d, In u (gnodes g) -> In v (gadj g u) -> delay u v = Some d -> 0 <= d.
+Hypothesis Hdur : forall u d, In u (gnodes g) -> dur u = Some d -> 0 <= d.
+Hypothesis Hadj : forall u, In u (gnodes g) -> NoDup (gadj g u).
 Hypothesis Hdisj : forall u, In u i0 -> ~ In u r0.
 
 Definition ltmax (t : Q) : Prop := xltb (Some t) tmax = true.
@@ -23,7 +23,10 @@ Hypothesis Htmin : ltmax tmin.
 
 (* u -> v is an arc of the percolated graph H (minus R0), with delay d *)
 Definition hedge (u v : node) (d : Q) : Prop :=
-  In v (gadj g u) /\ ~ In v r0 /\ delay u v = Some d /\ xleb (Some d) (dur u) = true.
+  In u (gnodes g) /\ In v (gadj g u) /\ ~ In v r0 /\ delay u v = Some d /\ xleb (Some d) (dur u) = true.
+
+Lemma hedge_nonneg : forall u v d, hedge u v d -> 0 <= d.
+Proof. intros u v d [H1 [H2 [_ [H3 _]]]]. eapply Hdelay; eauto. Qed.
 
 Definition tl := list (Q * option node * node).
 Definition infd (l : tl) (v : node) : Prop := exists t s, In (t, s, v) l.
@@ -164,8 +167,8 @@ Proof.
   intros. unfold sus_nbrs. rewrite filter_In. rewrite N.eqb_eq. tauto.
 Qed.
 
-Lemma sus_nbrs_nodup : forall st u, NoDup (sus_nbrs g st u).
-Proof. intros. unfold sus_nbrs. apply NoDup_filter. apply Hadj. Qed.
+Lemma sus_nbrs_nodup : forall st u, In u (gnodes g) -> NoDup (sus_nbrs g st u).
+Proof. intros. unfold sus_nbrs. apply NoDup_filter. apply Hadj. auto. Qed.
 
 Lemma pget_some : forall p w x, pget p w = Some x -> p w = Some (Some x).
 Proof. intros p w x. unfold pget. destruct (p w) as [[y|]|]; intros H; inversion H; auto. Qed.
@@ -291,11 +294,11 @@ Proof.
 Qed.
 
 Lemma step_inf : forall c s e q' src v,
-  Inv c s -> qu s = e :: q' -> qe e = ETrans src v -> stat s v = stS ->
+  Inv c s -> qu s = e :: q' -> qe e = ETrans src v -> stat s v = stS -> In v (gnodes g) ->
   let sus := sus_nbrs g (fupdN (stat s) v stI) v in
   Inv (qt e) (apply_inf tb tmax (qt e) src v (det_delays delay v sus) (dur v) (det_calls v sus) (set_qu s q')).
 Proof.
-  intros c s e q' src v HI Hq He Hv sus.
+  intros c s e q' src v HI Hq He Hv Hvg sus.
   set (t := qt e). set (s0 := set_qu s q').
   set (td := det_delays delay v sus). set (rt := xadd t (dur v)).
   set (s' := apply_inf tb tmax t src v td (dur v) (det_calls v sus) s0).
@@ -316,7 +319,7 @@ Proof.
     - apply Neqb_true in E. subst. split; [intros [_ H]; discriminate|intros [_ [H _]]; congruence].
     - apply N.eqb_neq in E. tauto. }
   assert (Hnd : NoDup (map fst td)).
-  { unfold td. rewrite det_delays_fst. apply sus_nbrs_nodup. }
+  { unfold td. rewrite det_delays_fst. apply sus_nbrs_nodup. exact Hvg. }
   assert (Hr0S : forall w, stat s w = stS -> ~ In w r0).
   { intros w H Hr. destruct (i_r0 _ _ HI w Hr) as [H1 _]. rewrite H in H1. discriminate. }
   (* queue *)
@@ -346,12 +349,12 @@ Proof.
     apply Hsus in Hw. destruct Hw as [Hadjw [Hwv HwS]].
     apply xadd_some in Hx. destruct Hx as [d' [Hd' ->]].
     exists d'. split; [|auto].
-    split; auto. split; [apply Hr0S; auto|]. split; auto.
+    split; auto. split; auto. split; [apply Hr0S; auto|]. split; auto.
     unfold rt in Hle. change (Some (t + d')) with (xadd t (Some d')) in Hle.
     rewrite xleb_xadd in Hle. exact Hle. }
   assert (Hrt_ge : forall r, rt = Some r -> t <= r).
   { intros r Hr. unfold rt in Hr. apply xadd_some in Hr. destruct Hr as [d' [Hd' ->]].
-    apply Hdur in Hd'. lra. }
+    apply (Hdur v d' Hvg) in Hd'. lra. }
   (* coverage is preserved *)
   assert (Hcov : forall w b, covered s w b -> ltmax b -> covered s' w b).
   { intros w b [[tw [sw [Hin Hle]]]|[HwS [p [Hp Hpb]]]] Hlb.
@@ -376,7 +379,7 @@ Proof.
       * split; [apply Hhd; auto|]. apply (i_qtime _ _ HI). auto.
       * simpl. split; auto.
     + destruct (Hpush w d (qt x) Hin Hp) as [d' [Hh [Hx [Hl _]]]].
-      split; auto. destruct Hh as [_ [_ [Hd _]]]. apply Hdelay in Hd. rewrite Hx. lra.
+      split; auto. apply hedge_nonneg in Hh. rewrite Hx. lra.
   - lra.
   - (* queued transmissions are justified *)
     intros x sr w Hx Hqx. apply QB in Hx. destruct Hx as [Hx|[w' [d [Hin [Hp Hqx']]]]].
@@ -441,8 +444,8 @@ Proof.
   - (* J4 *)
     intros tu su u w d Hin Hh Hl. rewrite Htl in Hin. destruct Hin as [H|Hin].
     + inversion H; subst tu su u. clear H.
-      destruct Hh as [Hadjw [Hwr0 [Hd Hle]]].
-      pose proof (Hdelay _ _ _ Hd) as Hd0.
+      pose proof (hedge_nonneg _ _ _ Hh) as Hd0.
+      destruct Hh as [_ [Hadjw [Hwr0 [Hd Hle]]]].
       destruct (N.eq_dec w v) as [->|Hwv].
       { left. exists t, src. rewrite Htl. split; [left; auto|lra]. }
       destruct (N.eq_dec (stat s w) stS) as [HwS|HwS].
@@ -491,13 +494,14 @@ Qed.
 
 (* one pop of the deterministic loop *)
 Lemma step_det_inv : forall c s e q',
-  Inv c s -> qu s = e :: q' -> Inv (qt e) (step_det tb g tmax delay dur e (set_qu s q')).
+  Inv c s -> qu s = e :: q' -> (forall src v, qe e = ETrans src v -> In v (gnodes g)) ->
+  Inv (qt e) (step_det tb g tmax delay dur e (set_qu s q')).
 Proof.
-  intros c s e q' HI Hq. unfold step_det.
+  intros c s e q' HI Hq Hgn. unfold step_det.
   destruct (qe e) as [src v|u] eqn:He.
   - change (stat (set_qu s q') v) with (stat s v).
     destruct (N.eqb (stat s v) stS) eqn:E.
-    + apply Neqb_true in E. apply (step_inf c s e q' src v HI Hq He E).
+    + apply Neqb_true in E. apply (step_inf c s e q' src v HI Hq He E (Hgn src v eq_refl)).
     + apply N.eqb_neq in E. apply (step_skip c s e q' src v HI Hq He E).
   - apply (step_rec c s e q' u HI Hq He).
 Qed.
